@@ -13,7 +13,7 @@ import declspace as ds
 import whitebox as wb
 
 
-def enumerate_decls(nmax, seed, cap=None):
+def enumerate_decls(nmax, seed, cap=None, p_fall=0.5):
     """all DAGs on n <= nmax topologically numbered providers x every Async subset; fallible flags seeded"""
     rng = random.Random(seed * 31 + 5)
     out = []
@@ -21,7 +21,7 @@ def enumerate_decls(nmax, seed, cap=None):
     for n in range(1, nmax + 1):
         for edges in ds.all_dags(n):
             for a in ds.subsets(range(n)):
-                f = {i for i in range(n) if rng.random() < 0.5}
+                f = {i for i in range(n) if rng.random() < p_fall} if (k % 3) else set()
                 out.append(ds.mk_decl('p%06d' % k, n, edges, n - 1, a, f))
                 k += 1
     if cap and len(out) > cap:
@@ -124,9 +124,9 @@ def planner_conformance(work, decls, progs_by_id):
     return o['n'], o['diff']
 
 
-def explore(work, prop, clauses, modes, signature, nmax, seed, cap=None):
+def explore(work, prop, clauses, modes, signature, nmax, seed, cap=None, p_fall=0.5):
     """-> (decls, progs, sigs {sig: [(decl id, mode, flag)]}, states, transitions)"""
-    decls = enumerate_decls(nmax, seed, cap)
+    decls = enumerate_decls(nmax, seed, cap, p_fall)
     progs = plan(work, decls)
     flags, st, tr, _ = wb.model_check(work, decls, progs, modes='none' if modes == 'none' else None, name='design')
     byid = {d['id']: d for d in decls}
